@@ -76,7 +76,26 @@ fn decode(k: Kind, ycode: u32, xcode: u32, lat_ref: f64, lon_ref: f64) -> Result
         let mut m = AIR.get_or_init(|| [airborne_template(false), airborne_template(true)])[k.odd as usize];
         m.lat_cpr = ycode;
         m.lon_cpr = xcode;
-        guarded(|| airborne_position_with_reference(&m, lat_ref, lon_ref))
+        let r = guarded(|| airborne_position_with_reference(&m, lat_ref, lon_ref));
+        if (ycode == 0 || ycode == 0x1ffff) && (xcode == 0 || xcode == 0x1ffff) {
+            // zone corners: the same report without an altitude (all-zero altitude subfield) must decode alike
+            let mut m2 = m;
+            m2.alt = None;
+            let r2 = guarded(|| airborne_position_with_reference(&m2, lat_ref, lon_ref));
+            if r != r2 {
+                return Err(format!("the decoded position depends on the altitude subfield: {r:?} with an altitude, {r2:?} without"));
+            }
+        }
+        r
+    }
+}
+
+/// class of an Err from decode(): a panic of the decoder, or a position that depends on the altitude subfield
+fn err_class(part: &str, kind: &str, msg: &str) -> String {
+    if msg.starts_with("the decoded position depends") {
+        format!("{part}:altitude-dependent:{kind}")
+    } else {
+        format!("{part}:panic:{kind}")
     }
 }
 
@@ -133,7 +152,7 @@ fn check_lat_cell(k: Kind, a: i64, b: i64) -> Option<(String, String, f64)> {
         let e = if (refs[0] - la).abs() < (refs[0] - lb).abs() { la } else { lb };
         for lat_ref in refs {
             match decode(k, code, 0, lat_ref, 0.0) {
-                Err(p) => return Some((format!("ref:panic:{}", k.name()), format!("decoder panicked (lat code {code}, reference latitude {lat_ref}): {p}"), lat_ref)),
+                Err(p) => return Some((err_class("ref", &k.name(), &p), format!("lat code {code}, reference latitude {lat_ref}: {p}"), lat_ref)),
                 Ok(None) => return Some((format!("ref:none-in-range:lat:{}", k.name()), format!("true latitude in [{la:.7},{lb:.7}], reference latitude {lat_ref:.9} ({:.3} of the range): no position", (lat_ref - e).abs().min((lat_ref - la).abs()).min((lat_ref - lb).abs()) / k.rho_deg()), lat_ref)),
                 Ok(Some(p)) => {
                     let err = (p.latitude - la).abs().max((p.latitude - lb).abs()) * DEG_M;
@@ -246,7 +265,7 @@ fn check_lon_cell(s: &LonSetup, a: i64, b: i64) -> Option<(String, String, f64)>
         {
             for lon_ref in refs {
                 match decode(s.k, ycode, xcode, s.lat_deg, lon_ref) {
-                    Err(p) => return Some((format!("ref:panic:{}", s.k.name()), format!("decoder panicked: {p}"), lon_ref)),
+                    Err(p) => return Some((err_class("ref", &s.k.name(), &p), format!("codes {ycode}/{xcode}, reference ({}, {lon_ref}): {p}", s.lat_deg), lon_ref)),
                     Ok(None) => {
                         return Some((
                             format!("ref:none-in-range:lon:{}:NL={}", s.k.name(), s.n),
@@ -277,7 +296,7 @@ fn check_lon_cell(s: &LonSetup, a: i64, b: i64) -> Option<(String, String, f64)>
 /// Part 2: any finite reference — result absent or within half a zone of the reference.
 fn check_any_ref(k: Kind, ycode: u32, xcode: u32, lat_ref: f64, lon_ref: f64) -> Option<(String, String)> {
     match decode(k, ycode, xcode, lat_ref, lon_ref) {
-        Err(p) => Some((format!("anyref:panic:{}", k.name()), format!("decoder panicked on codes {ycode}/{xcode} reference ({lat_ref:e},{lon_ref:e}): {p}"))),
+        Err(p) => Some((err_class("anyref", &k.name(), &p), format!("codes {ycode}/{xcode} reference ({lat_ref:e},{lon_ref:e}): {p}"))),
         Ok(None) => None,
         Ok(Some(p)) => {
             if !p.latitude.is_finite() || !p.longitude.is_finite() {
@@ -415,6 +434,47 @@ pub fn run(ctx: &Ctx, rep: &Report) {
             }
         }
         rep.part(&format!("part1:longitude-cells:{}", k.name()), total_cells, json!({"bands": if thorough {"1..=59, both hemispheres, most poleward and most equatorward latitude of each band"} else {"quick subset"}}));
+    }
+    // ---- Part 1 longitude, band edges: every band of every grid, both hemispheres, at the most poleward and the
+    // most equatorward latitude bin of the band (where a shifted NL threshold shows), on 64 groups of 8 longitude
+    // cells spread around the circle. Cheap, so it runs for all 59 bands in both tiers.
+    {
+        let mut edge_cells = 0u64;
+        for k in kinds {
+            for n in 1..=59u32 {
+                for south in [false, true] {
+                    for bottom in [false, true] {
+                        if bottom && n == 1 {
+                            continue;
+                        }
+                        let s = lon_setup(k, n, south, bottom);
+                        if 0.95 * s.delta >= s.d_lon / 2.0 && !(s.ni == 1 && !k.surface) {
+                            continue;
+                        }
+                        let circle_bins = (if k.surface { 4 } else { 1 }) * s.ni * TWO17;
+                        for g in 0..64i64 {
+                            let a0 = 2 * (g * circle_bins / 64);
+                            let mut c = 0u64;
+                            let mut bad = 0;
+                            for_cells(1, 0, a0, a0 + 16, |a, b| {
+                                if bad > 2 {
+                                    return;
+                                }
+                                c += 1;
+                                if let Some((cl, w, r)) = check_lon_cell(&s, a, b) {
+                                    bad += 1;
+                                    rep.violation(&cl, w, json!({"kind":"lon","surface":k.surface,"odd":k.odd,"n":n,"south":south,"bottom":bottom,"a":a,"b":b,"ref":r}));
+                                }
+                            });
+                            edge_cells += c;
+                        }
+                        rep.eval(take_calls());
+                    }
+                }
+            }
+        }
+        rep.nontriv(edge_cells);
+        rep.part("part1:longitude-cells at the edge latitudes of all 59 bands, all four grids", edge_cells, json!({}));
     }
     rep.state(total_cells);
     rep.note("bands_outside_the_claim", json!(*skipped.lock().unwrap()));
